@@ -68,7 +68,7 @@ def shards(tier):
 
 def floors(tier):
     f = {"conforms_calls": 300000, "compared": 200000, "never_raise_only:idn-hostname": 5000,
-         "never_raise_only:time": 5000, "calibration_strings": 50, "distinct_nontrivial": 30000}
+         "never_raise_only:time": 5000, "calibration_strings": 50, "distinct_nontrivial": 30000, "formats_argument_kinds": 7}
     for n in ("ipv4", "ipv6", "date", "regex", "email"):
         f["accepted:" + n] = 500
         f["rejected:" + n] = 2000
@@ -96,6 +96,25 @@ class Monitor:
         for d in impl.DRAFTS:
             self.checkers["draft%d_format_checker" % d] = getattr(jsonschema, "draft%d_format_checker" % d)
         self.names = {k: sorted(c.checkers) for k, c in self.checkers.items()}
+        # FormatChecker(formats=<iterable>): the documented argument is any iterable of names - handed over as a list, a
+        # tuple, a set, dict keys, and as one-shot iterables (generator, iterator, map)
+        allnames = sorted(jsonschema.FormatChecker.checkers)
+        kinds = {"list": lambda: list(allnames), "tuple": lambda: tuple(allnames), "frozenset": lambda: frozenset(allnames),
+                 "dict-keys": lambda: dict.fromkeys(allnames).keys(), "generator": lambda: (n for n in allnames),
+                 "iterator": lambda: iter(allnames), "map": lambda: map(str, allnames)}
+        for kind, mk in kinds.items():
+            cname = "FormatChecker(formats=<%s>)" % kind
+            try:
+                chk = jsonschema.FormatChecker(formats=mk())
+            except Exception as e:
+                ctx.violation("formats-argument", {"checker": cname}, "%s: %s" % (type(e).__name__, str(e)[:100]))
+                continue
+            ctx.count("formats_argument_kinds")
+            if sorted(chk.checkers) != allnames:
+                ctx.violation("formats-argument", {"checker": cname, "format": None, "string": None},
+                              "asked for %d names, the checker knows %r" % (len(allnames), sorted(chk.checkers)[:8]))
+            self.checkers[cname] = chk
+            self.names[cname] = allnames
         self.k = 0
 
     def feed(self, s):
@@ -105,6 +124,8 @@ class Monitor:
         self.k += 1
         which = ["FormatChecker()"]
         if self.k % 5 == 0:
+            which = [c for c in self.checkers if "formats=" not in c]
+        if self.k % 40 == 0:
             which = list(self.checkers)
         for cname in which:
             chk = self.checkers[cname]
